@@ -1,11 +1,11 @@
 // shared declarations of the C40 mock-tier harness
 #pragma once
 #include <string>
-enum Stage { ST_NONE = 0, ST_INITIALIZE, ST_CHECKBOUNDS, ST_APRIORI, ST_INTEGRATE, ST_APOSTERIORI, ST_TANGENT, ST_INTERNAL_ENERGY, ST_DISSIPATED_ENERGY, ST_SPEED_OF_SOUND, ST_COUNT };
+enum Stage { ST_NONE = 0, ST_INITIALIZE, ST_CHECKBOUNDS, ST_APRIORI, ST_INTEGRATE, ST_APOSTERIORI, ST_TANGENT, ST_INTERNAL_ENERGY, ST_DISSIPATED_ENERGY, ST_SPEED_OF_SOUND, ST_INITFN, ST_POSTFN, ST_COUNT };
 enum Mode { M_RETURN_FAILURE = 0, M_THROW_STD = 1, M_THROW_OTHER = 2 };
 struct Case { int wrapper, hyp, stage, mode, k0, k1, k2, reduce; };
 struct Result { int r; bool untouched; std::string what; };
-extern int g_stage, g_mode, g_reduce;
+extern int g_stage, g_mode, g_reduce, g_axial;   // g_axial: the mock ends the step with an axial strain of -0.75 (1 + 2 ezz < 0)
 extern long g_stage_hits[ST_COUNT];
 extern const double k0_values[11];
 Result run_case_hyp0(const Case&); Result run_case_hyp1(const Case&); Result run_case_hyp2(const Case&); Result run_case_hyp3(const Case&);
